@@ -18,6 +18,23 @@ REGISTRY = {
         engine="E3 flow + E7 who-may-call",
         ref="DESIGN.md §4 C13",
     ),
+    "C19": dict(
+        text="Typestate analysis (UNMASKED/MASKED) of the trainer's configuration object over the lifecycle "
+        "ModelTrainer.__init__ ; train with self-callees inlined: every persistence sink (the five OmegaConf.save "
+        "sites, OmegaConf.to_container for the experiment tracker, the checkpoint written inside trainer.fit) is "
+        "reached only in state MASKED. Because this is a dominance fact over the CFG it holds at every crash point "
+        "between two file writes and for every configuration (tracking on/off, framework, structured or plain). "
+        "Also decided: the stashed key flows only into wandb.login; the final training_config.yaml save cuts every "
+        "exit of train() after fit; chunk deletion sits in that finally under its flag and framework; no config write "
+        "precedes the initial save; every self.config path read/written by ModelTrainer and TrainingModel resolves in "
+        "the attrs schema tree (a write of an undeclared key raises on builder-made configs).",
+        note="Trusted: ast, networkx, the enumerated serialisation sinks, Lightning calling on_save_checkpoint only "
+        "inside fit. Not decided: that training completes without error in general, checkpoint creation by "
+        "Lightning, equality of the saved YAML with the supplied configuration, files written by wandb itself.",
+        technique="CFG typestate dataflow + must-reach + schema path conformance",
+        engine="E3 typestate/flow + E5 schema",
+        ref="DESIGN.md §4 C19",
+    ),
 }
 
 ALL = ["C%02d" % i for i in range(1, 21)]
